@@ -144,6 +144,7 @@ package readline
 //@   let le = lineE(rl)
 //@   ensures [dd-removes-line] pend && lb != -1 && le != -1 ==> *rl.line == old(*rl.line)[:lb] + old(*rl.line)[le:]
 //@   ensures [dd-stores-line] pend && lb != -1 && le != -1 && le > lb ==> killed(rl) == runes(addnl(str(old(*rl.line)[lb:le])))
+//@   ensures [count-kept-for-motion] !pend && !old(rl.selection.active) && len(rl.Keys.matched) > 0 && rl.Keys.matched[0] == 'd' ==> rl.Iterations.times == old(rl.Iterations.times)
 
 //@ func (*Shell).viYankTo
 //@   props C17
@@ -158,6 +159,7 @@ package readline
 //@   let le = lineE(rl)
 //@   ensures [yy-keeps-buffer] pend ==> *rl.line == old(*rl.line)
 //@   ensures [yy-stores-line] pend && lb != -1 && le != -1 && le > lb ==> killed(rl) == runes(addnl(str(old(*rl.line)[lb:le])))
+//@   ensures [count-kept-for-motion] !pend && !old(rl.selection.active) && len(rl.Keys.matched) > 0 && rl.Keys.matched[0] == 'y' ==> rl.Iterations.times == old(rl.Iterations.times)
 
 // ---------------------------------------------------------------------------------------
 // C03: a sequence bound to a macro behaves as if the macro's keys had been typed: run feeds the unescaped
@@ -976,3 +978,21 @@ package readline
 //@ func (*Shell).editCommandLine
 //@   props C01
 //@   requires fullok(rl) && histready(rl)
+
+// ---------------------------------------------------------------------------------------
+// C19, dump commands: what reaches the terminal is a constant inputrc-format line applied to the escaped key
+// sequence and the escaped macro body / the variable name and value (fmt and the terminal are assumed
+// transparent; the escaping itself is C19's kernel). The data is never used as a format string.
+//@ func (*Shell).dumpMacros
+//@   props C19
+//@   assume_nopanic the display, the prompt and the terminal are outside this contract: only what is handed to fmt.Printf is claimed
+//@   requires rl != nil && rl.Config != nil && rl.Keymap != nil && rl.Iterations != nil && rl.Display != nil && rl.Prompt != nil
+//@   at_call fmt.Printf#1 [inputrc-format] a0 == "\"%s\": \"%s\"\n" && len(a1) == 2
+//@   at_call fmt.Printf#2 [readable-format] a0 == "%s outputs %s\n" && len(a1) == 2
+
+//@ func (*Shell).dumpVariables
+//@   props C19
+//@   assume_nopanic the display, the prompt and the terminal are outside this contract: only what is handed to fmt.Printf is claimed
+//@   requires rl != nil && rl.Config != nil && rl.Keymap != nil && rl.Iterations != nil && rl.Display != nil && rl.Prompt != nil
+//@   at_call fmt.Printf#1 [inputrc-format] a0 == "set %s %v\n" && len(a1) == 2
+//@   at_call fmt.Printf#2 [readable-format] a0 == "%s is set to `%v'\n" && len(a1) == 2
